@@ -74,7 +74,7 @@ fn run_req(ctx: &Ctx, r: &Req, tag: &str) -> (cli::RunOut, String) {
     if r.dot {
         args.push("--dot".into());
     }
-    let f = dir.join(super::common::hostile_file_name(r.v.unwrap_or(0) + r.e.unwrap_or(0), "out.txt"));
+    let f = super::common::spelled_output(&dir, r.v.unwrap_or(0) * 3 + r.e.unwrap_or(0), &super::common::hostile_file_name(r.v.unwrap_or(0) + r.e.unwrap_or(0), "out.txt"));
     if r.to_file {
         // the output file already exists and is longer than what will be written (feasible requests only:
         // an infeasible request must not write anything, which is checked on a fresh path)
@@ -105,7 +105,9 @@ fn run_req(ctx: &Ctx, r: &Req, tag: &str) -> (cli::RunOut, String) {
 
 fn check_req(ctx: &Ctx, st: &mut Stats, r: &Req, tag: &str, seen_outputs: &mut HashSet<u64>) {
     st.evals += 1;
-    let (out, text) = run_req(ctx, r, tag);
+    let (out, full_text) = run_req(ctx, r, tag);
+    // (messages quote at most the first 4 KiB of an output)
+    let text: String = if full_text.len() > 4096 { format!("{} ... [{} bytes]", full_text.chars().take(4096).collect::<String>(), full_text.len()) } else { full_text.clone() };
     let case = || req_json(r);
     let desc = format!("random_graph_gen {:?}", r);
     if out.timed_out {
@@ -142,7 +144,7 @@ fn check_req(ctx: &Ctx, st: &mut Stats, r: &Req, tag: &str, seen_outputs: &mut H
                 st.violate("c18.run", "C18:feasible-request-refused".into(), format!("{}: {} {}", desc, out.status_string(), out.stderr_str()), case());
                 return;
             }
-            let edges = match parse_output(&text, r.dot, r.undirected) {
+            let edges = match parse_output(&full_text, r.dot, r.undirected) {
                 Ok(e) => e,
                 Err(m) => {
                     st.violate("c18.format", "C18:unparsable-output".into(), format!("{}: {}\n{}", desc, m, text), case());
@@ -153,10 +155,10 @@ fn check_req(ctx: &Ctx, st: &mut Stats, r: &Req, tag: &str, seen_outputs: &mut H
                 st.violate("c18.count", "C18:wrong-number-of-edges".into(), format!("{}: {} edges, asked for {}\n{}", desc, edges.len(), e, text), case());
                 return;
             }
-            let names: Vec<String> = (0..v).map(|i| format!("v{}", i)).collect();
+            let known = |s: &String| s.strip_prefix('v').and_then(|d| d.parse::<usize>().ok()).map_or(false, |i| i < v && format!("v{}", i) == *s);
             let mut set: BTreeSet<(String, String)> = BTreeSet::new();
             for (a, b) in &edges {
-                if !names.contains(a) || !names.contains(b) {
+                if !known(a) || !known(b) {
                     st.violate("c18.vertices", "C18:unknown-vertex".into(), format!("{}: edge {},{} uses a vertex outside v0..v{}", desc, a, b, v.saturating_sub(1)), case());
                     return;
                 }
@@ -171,7 +173,7 @@ fn check_req(ctx: &Ctx, st: &mut Stats, r: &Req, tag: &str, seen_outputs: &mut H
                 }
             }
             let max = if r.undirected { v * v.saturating_sub(1) / 2 } else { v * v.saturating_sub(1) };
-            let h = mix(util::hash_str(&format!("{:?}", (r.v, r.e, r.undirected, r.complete, r.dot))), util::hash_str(&text));
+            let h = mix(util::hash_str(&format!("{:?}", (r.v, r.e, r.undirected, r.complete, r.dot))), util::hash_str(&full_text));
             if seen_outputs.insert(h) {
                 st.bump("distinct_outputs");
                 if e > 0 && e < max {
@@ -238,6 +240,22 @@ fn gen_job(ctx: &Ctx, job: usize, jobs: usize, reps: usize) -> Stats {
             }
         }
     }
+    // LARGE requests (hundreds to thousands of vertices; sparse, dense and complete): the same
+    // judgement — exactly E distinct edges over v0..v(V-1), no loop, one orientation under -u
+    let large: Vec<(usize, Option<usize>, bool, bool)> = if reps >= 60 {
+        vec![(600, Some(11_000), true, false), (363, Some(3_000), true, false), (400, Some(5_000), false, false), (1000, Some(20_000), true, false), (700, None, true, true), (2000, Some(100_000), true, false), (1500, Some(100_000), false, false), (2000, Some(1_999_000), true, false), (1200, Some(3), true, false), (365, Some(66_430), true, false), (300, None, false, true), (5000, Some(40_000), true, false)]
+    } else {
+        vec![(600, Some(11_000), true, false), (363, Some(3_000), true, false), (400, Some(5_000), false, false), (1000, Some(20_000), true, false), (500, None, true, true), (257, Some(65_792), false, false)]
+    };
+    for (li, (v, e, undirected, complete)) in large.iter().enumerate() {
+        k += 1;
+        if k % jobs != job {
+            continue;
+        }
+        let r = Req { v: Some(*v), e: *e, undirected: *undirected, complete: *complete, dot: li % 4 == 3, to_file: li % 2 == 1 };
+        check_req(ctx, &mut st, &r, &format!("{}-large-{}", job, li), &mut seen);
+        st.bump("large_requests");
+    }
     if job == 0 {
         // missing arguments
         for (v, e, c) in [(None, None, false), (Some(3), None, false), (None, None, true)] {
@@ -262,7 +280,7 @@ fn convert_case(ctx: &Ctx, st: &mut Stats, edges: &[(String, String)], undirecte
         st.bump("convert_inputs_with_crlf");
     }
     // the file to convert is a regular file, a named pipe or /dev/stdin (chosen by the content)
-    let mode = [0u8, 0, 3, 4, 6][(csv.len() + undirected as usize + 2 * dot as usize) % 5];
+    let mode = [0u8, 0, 3, 4, 6][(csv.len() + undirected as usize + 2 * dot as usize) % 5]; // (--convert takes a file argument: no stdin mode)
     let plan = super::common::plan_input(mode, &dir, "in.csv", csv.as_bytes());
     st.bump(&format!("convert_input_channel_{}", mode));
     let mut args = vec!["--convert".to_string(), plan.path_arg.clone().unwrap_or_default()];
@@ -584,7 +602,7 @@ pub fn run(ctx: &Ctx) -> (Stats, Spec) {
         }
     }
     let spec = Spec {
-        rule: "all (V in 0..6, E in 0..max+2, -u, --dot, stdout or -o) requests and boundary edge counts for V in {11, 17, 40}, feasible ones repeated 10 [quick] / 60 [thorough] times (every run is a fresh random sample; the number of distinct outputs seen is reported), --complete with and without an edge count, missing arguments; --convert (file to convert: a regular file — also one named `-` —, a named pipe or /dev/stdin; output to stdout, to another file, or IN PLACE onto the file being converted, directly or through a symbolic link) on every digraph with <= 3 vertices, random edge lists over 4-5 vertices, and (under -u) ordered pairs of distinct edges over five names of every family (a third of them [quick] / all [thorough]) (shuffled rows; exact duplicates and self-loops without -u; reversed pairs under -u), --colors 0..3 on every loop-free graph with 2..4 (thorough: sampled 5) vertices, with seven vertex-name families (names that collide under joining with '-', '_' or '.'; plain; one name a prefix of another: v1 / v10 / v1X, 1 / 10 / 100; names containing the colour suffix pattern), and --colors on generated complete graphs with 11-12 vertices. distinct = (request, output); non-trivial = 0 < E < max resp. non-empty input.".into(),
+        rule: "all (V in 0..6, E in 0..max+2, -u, --dot, stdout or -o) requests and boundary edge counts for V in {11, 17, 40}, LARGE requests (V = 257 .. 1000 [quick] / .. 5000 [thorough]; sparse, dense, complete; -u and directed), feasible ones repeated 10 [quick] / 60 [thorough] times (every run is a fresh random sample; the number of distinct outputs seen is reported), --complete with and without an edge count, missing arguments; --convert (file to convert: a regular file — also one named `-` —, a named pipe or /dev/stdin; output to stdout, to another file, or IN PLACE onto the file being converted, directly or through a symbolic link) on every digraph with <= 3 vertices, random edge lists over 4-5 vertices, and (under -u) ordered pairs of distinct edges over five names of every family (a third of them [quick] / all [thorough]) (shuffled rows; exact duplicates and self-loops without -u; reversed pairs under -u), --colors 0..3 on every loop-free graph with 2..4 (thorough: sampled 5) vertices, with seven vertex-name families (names that collide under joining with '-', '_' or '.'; plain; one name a prefix of another: v1 / v10 / v1X, 1 / 10 / 100; names containing the colour suffix pattern), and --colors on generated complete graphs with 11-12 vertices. distinct = (request, output); non-trivial = 0 < E < max resp. non-empty input.".into(),
         assumptions: vec![
             "uniformity of the random sample is not claimed by the property and not tested".into(),
             "self-loops are not given to --convert -u / --colors, exact duplicates not to --convert -u (their treatment is a convention the statement does not fix); --colors inputs may state an edge twice (the same graph)".into(),
@@ -597,6 +615,7 @@ pub fn run(ctx: &Ctx) -> (Stats, Spec) {
             ("colourable_inputs".into(), 50, "--colors hardly exercised".into()),
             ("non_colourable_inputs".into(), 50, "--colors hardly exercised on non-colourable inputs".into()),
             ("distinct_outputs".into(), 500, "too few distinct outputs".into()),
+            ("large_requests".into(), 5, "large requests not exercised".into()),
         ],
     };
     (st, spec)
